@@ -2,4 +2,6 @@
 #[cfg(kani)]
 mod util;
 #[cfg(kani)]
+mod c08;
+#[cfg(kani)]
 mod c14;
